@@ -82,7 +82,7 @@ def templatesOf : Node → List Tmpl
       | _ => none
   | _ => []
 
-def buildAttributeList (env : Env) (_args : GoStr) : Except String GoStr := .error "attrlist not in prototype"
+
 
 def classArg (env : Env) (t : Tok) : Except String (List GoStr) :=
   match t.typ with
